@@ -1,5 +1,6 @@
 import MidoProofs.SrcTie.Tok
 import MidoProofs.SrcTie.Parser
+import MidoProofs.SrcTie.ParserSession
 #print axioms Mido.src_spec_table
 #print axioms Mido.src_feed_data
 #print axioms Mido.src_feed_status
@@ -11,3 +12,5 @@ import MidoProofs.SrcTie.Parser
 #print axioms Mido.src_parser_feed_byte
 #print axioms Mido.src_parser_get
 #print axioms Mido.src_parser_pending
+#print axioms Mido.srcStep_sim
+#print axioms Mido.src_parser_session
